@@ -93,13 +93,15 @@ def imec_meta_text(kind, sites, gains=None, band="ap", nsync=1, ns=None, fs_hz="
     return "\n".join(lines) + "\n"
 
 
-def nidq_meta_text(mn, ma, xa, dw, mn_gain=200, ma_gain=1, rng="5", ns=None, fs_hz="30003.0003", n_saved=None):
+def nidq_meta_text(mn, ma, xa, dw, mn_gain=200, ma_gain=1, rng="5", ns=None, fs_hz="30003.0003", n_saved=None, acq=None):
+    """(mn, ma, xa, dw) is the SAVED layout (snsMnMaXaDw); `acq` the acquired one when only a subset of the channels was saved"""
     nsaved = (mn + ma + xa + dw) if n_saved is None else n_saved
-    lines = [f"acqMnMaXaDw={mn},{ma},{xa},{dw}"]
+    a = (mn, ma, xa, dw) if acq is None else tuple(acq)
+    lines = [f"acqMnMaXaDw={a[0]},{a[1]},{a[2]},{a[3]}"]
     if ns is not None:
         lines.append(f"fileTimeSecs={ns}")
     lines += [f"nSavedChans={nsaved}", f"niAiRangeMax={rng}", f"niMAGain={S(ma_gain)}", f"niMNGain={S(mn_gain)}",
-              f"niSampRate={fs_hz}", f"snsMnMaXaDw={mn},{ma},{xa},{dw}", "snsSaveChanSubset=all", "typeThis=nidq",
+              f"niSampRate={fs_hz}", f"snsMnMaXaDw={mn},{ma},{xa},{dw}", "snsSaveChanSubset=" + ("all" if acq is None else f"0:{nsaved - 1}"), "typeThis=nidq",
               "~snsShankMap=(1,2,0)"]
     return "\n".join(lines) + "\n"
 
